@@ -77,7 +77,14 @@ def generic_check(run, models_q, models_t, jobs_q, jobs_t, rule, corpus=False, f
     for m in (models_q if quick else models_q + models_t):
         run.model(*m[:2], **(m[2] if len(m) > 2 else {}))
     jobs = jobs_q if quick else jobs_q + jobs_t
-    jl = [job(run, *j[:2], **(j[2] if len(j) > 2 else {})) for j in jobs]
+    jl = []
+    for j in jobs:
+        if isinstance(j, dict):
+            d = dict(j)
+            d["args"] = [os.path.join(vlib.VERIF, a) if a.startswith("corpus/") else a.replace("@SEED@", str(run.seed)) for a in d["args"]]
+            jl.append(d)
+        else:
+            jl.append(job(run, *j[:2], **(j[2] if len(j) > 2 else {})))
     if corpus:
         jl.append(corpus_job(run, 16))
         if not quick:
@@ -140,7 +147,8 @@ def c04(run):
 def c05(run):
     return generic_check(run, [], [],
         [("chaos", ["map:kv16:zero:16:1200:wide:chaos=1", "map:kv16:collide:20:600:wide:chaoseq=1", "map:k4v4:zero:14:500:basic:chaos=1,chaoseq=1"]),
-         ("chaos2", ["map:kv24:fewpos:24:900:iter:chaos=1", "map:kv16:max:16:700:two:chaos=1", "map:kv16:zero:14:500:entry:chaoseq=1"])],
+         ("chaos2", ["map:kv24:fewpos:24:900:iter:chaos=1", "map:kv16:max:16:700:two:chaos=1", "map:kv16:zero:14:500:entry:chaoseq=1"]),
+         {"name": "chaosgoals_w16", "backend": "sse2", "args": ["replay", "--seed", "@SEED@", "corpus/map_w16_chaos.ndjson"]}],
         [("chaos3", ["map:kv16:zero:16:6000:wide:chaos=1", "map:kv200:collide:20:3000:wide:chaos=1,chaoseq=1", "map:kva64:zero:14:2000:cap:chaos=1"]),
          ("chaosg", ["map:kv16:zero:16:3000:wide:chaos=1", "map:kv16:collide:20:2000:entry:chaoseq=1"], G)],
         "hash functions / equality predicates that give a fresh pseudo-random answer on every call (answers logged); the safety subset of the "
@@ -209,7 +217,8 @@ def c10(run):
 def c11(run):
     return generic_check(run, [], [],
         [("two", ["map:kv16:collide:24:1200:two:plan2=mixed", "map:kv24:zero:14:700:two:plan2=fewpos"]),
-         ("twoset", ["set:k8t:collide:20:900:setalg:plan2=mixed"])],
+         ("twoset", ["set:k8t:collide:20:900:setalg:plan2=mixed"]),
+         ("twofault", ["map:kv16:collide:24:700:two:fault=40,fclass=clone,plan2=mixed", "set:k8t:collide:20:400:setalg:fault=30,fclass=clone"])],
         [("two2", ["map:kv200:onegroup:14:3000:two", "map:kva64:fewpos:30:3000:two:plan2=collide"]),
          ("twog", ["map:kv16:collide:24:3000:two:plan2=mixed"], G)],
         "ordered pairs (target, source) of tables built by random histories under different plans; clone / clone_from / == validated incl. fresh identities of the clones and later independence", goals=True)
